@@ -23,6 +23,26 @@ impl Violation {
 
 pub type R<T = ()> = Result<T, Violation>;
 
+/// Restricts which enumerated sub-cases of a run are executed (replay: exactly the failing one;
+/// shrinking: every index of the sweeps that were active when the violation fired).
+#[derive(Clone, Debug, Default)]
+pub struct Focus {
+    pub exact: Option<BTreeMap<String, u64>>,
+    pub labels: Option<std::collections::BTreeSet<String>>,
+}
+
+impl Focus {
+    pub fn none() -> Self {
+        Focus::default()
+    }
+    pub fn exact(m: BTreeMap<String, u64>) -> Self {
+        Focus { exact: Some(m), labels: None }
+    }
+    pub fn labels_of(m: &BTreeMap<String, u64>) -> Self {
+        Focus { exact: None, labels: Some(m.keys().cloned().collect()) }
+    }
+}
+
 enum Mode {
     Explore(Rng),
     Replay { values: Vec<u64>, pos: usize },
@@ -69,7 +89,7 @@ struct Inner {
     nontrivial: bool,
     steps: u64,
     notes: BTreeMap<String, serde_json::Value>,
-    focus: Option<BTreeMap<String, u64>>,
+    focus: Focus,
     at: BTreeMap<String, u64>,
     tier_thorough: bool,
 }
@@ -90,7 +110,7 @@ pub struct RunRecord {
 }
 
 impl Ctx {
-    pub fn new(tape: Tape, record: bool, focus: Option<BTreeMap<String, u64>>, thorough: bool) -> Self {
+    pub fn new(tape: Tape, record: bool, focus: Focus, thorough: bool) -> Self {
         Ctx(Arc::new(Mutex::new(Inner {
             tape,
             log_hash: 0,
@@ -206,12 +226,32 @@ impl Ctx {
     /// Indices of an enumerated sweep: all of `0..n` normally, only the focused one when replaying.
     pub fn sweep(&self, label: &str, n: usize) -> Vec<usize> {
         let g = self.lock();
-        if let Some(f) = &g.focus {
-            if let Some(v) = f.get(label) {
-                return if (*v as usize) < n { vec![*v as usize] } else { vec![] };
+        if let Some(f) = &g.focus.exact {
+            return match f.get(label) {
+                Some(v) if (*v as usize) < n => vec![*v as usize],
+                _ => vec![],
+            };
+        }
+        if let Some(l) = &g.focus.labels {
+            if !l.contains(label) {
+                return vec![];
             }
         }
         (0..n).collect()
+    }
+    /// Whether a non-enumerated part of the run (named `label`) is to be executed; marks it as current.
+    pub fn part(&self, label: &str) -> bool {
+        let mut g = self.lock();
+        let on = match (&g.focus.exact, &g.focus.labels) {
+            (Some(f), _) => f.contains_key(label),
+            (None, Some(l)) => l.contains(label),
+            _ => true,
+        };
+        if on {
+            g.at.clear();
+            g.at.insert(label.to_string(), 0);
+        }
+        on
     }
     pub fn set_at(&self, label: &str, k: u64) {
         self.lock().at.insert(label.to_string(), k);
